@@ -29,6 +29,10 @@ Status of the clauses of the statement
   registry holds each subscriber once is C08.
 * "after stop / removal has returned, at most one refresh that was already in flight completes and the data then
   stays unchanged": PROVED for one stream under the promptness assumption (`c16_stop_is_final`; A-inflight/A-time).
+* `RemoveEntity`: towards the heartbeat it is a `StopHeartbeat` (device_local.go calls it unconditionally, before and
+  independently of the membership of the entity in the device's list); the harness maps every `RemoveEntity` — on a
+  listed, a removed or a never-listed entity — to the stop events of the model, and the monitor applies the stop
+  clause after every such call.
 * "a current timestamp": not modelled (time.Now at the refresh); monitored on the real trace only.
 -/
 namespace Spine.Props.C16
